@@ -286,8 +286,12 @@ def surface_trim_tessellate(v1, v2, v3, v4, vidx, tidx, trims, tessellate_args):
     """
     # Tolerance value
     tol = 10e-8
-    tols = tol ** 2
-    vtol = ((tols, tols), (-tols, tols), (-tols, -tols), (tols, -tols))
+
+    # The vertices are moved towards the inside of the quad before testing them against the trim curves. The offset is
+    # relative to the size of the quad; an absolute value is lost in the round-off of parameters much larger than 1
+    tolu = (tol / 100.0) * abs(v3.uv[0] - v1.uv[0])
+    tolv = (tol / 100.0) * abs(v3.uv[1] - v1.uv[1])
+    vtol = ((tolu, tolv), (-tolu, tolv), (-tolu, -tolv), (tolu, -tolv))
 
     # Start processing vertices
     vertices = [v1, v2, v3, v4]
